@@ -727,7 +727,17 @@ func (e *Exec) timeVal(fn *ssa.Function, sec int64) Value {
 	return t
 }
 
+// timeNow: a non-decreasing clock. By default it advances one second per reading; with the job
+// parameter TIMEND=1 every reading is a nondeterministic choice between "no time has passed
+// since the last reading" and "an hour has passed", so that code whose behaviour depends on how
+// fast the clock moves is explored in both regimes.
 func timeNow(e *Exec, g *Goroutine, fn *ssa.Function, a []Value) (Value, bool) {
+	if e.param("TIMEND", 0) == 1 {
+		if e.choose(2) == 1 {
+			e.now += 3600
+		}
+		return e.timeVal(fn, e.now), false
+	}
 	e.now++
 	return e.timeVal(fn, e.now), false
 }
